@@ -3,7 +3,7 @@
 # scratch worktree outside /repo and /verif; the demonstration is re-run by tools/confirm_mutant.py afterwards.
 cd "$(dirname "$0")/.."
 for d in seeded/*/; do
-  id=$(basename $d)
+  id=$(basename $d); [ -f "$d/patch.diff" ] || continue
   if git -C /repo apply --check "$PWD/$d/patch.diff" 2>/dev/null; then continue; fi
   wt=$(mktemp -d /tmp/rebase_XXXXXX); rmdir "$wt"
   git -C /repo worktree add --detach "$wt" HEAD -q
